@@ -10,7 +10,7 @@ COQ_TARGETS = ["props/P_C07.vo", "corr/Corr_RF.vo"]
 PROOF_FILES = ["proofs/ResourceFn_proofs.v"]
 RULE = ("exhaustive cells readonly x owned x namespaced x create.enabled x update policy x deleteIfExists x "
         "precondition result x cluster situation (absent / present+matching / present+drifted / present without owner "
-        "ref), each with random target documents (inline or template, overlays, create overlay), plus random "
+        "ref / drifted and without owner ref / terminating), each with random target documents (inline or template, overlays, create overlay), plus random "
         "scenarios with failing expression sites; real prepare_resource_function + reconcile_resource_function "
         "against the in-memory cluster; non-trivial = the pass reaches the cluster (>= 1 call); distinct by cell + documents")
 ASSUMPTIONS = [
@@ -60,7 +60,7 @@ def oracle(sc, o):
 def cells(ctx):
     flags = itertools.product([False, True], [False, True], [False, True], [False, True],
                               [["patch", 9], ["recreate", 11], ["never"]], [False, True],
-                              [None, ["Retry", 5], ["Skip"]], ["absent", "match", "drift", "noowner", "terminating"])
+                              [None, ["Retry", 5], ["Skip"]], ["absent", "match", "drift", "noowner", "drift_noowner", "terminating"])
     for ro, owned, nsd, ce, upd, die, pre, live in flags:
         yield {"readonly": ro, "owned": owned, "namespaced": nsd, "create_enabled": ce, "update": upd,
                "delete_if_exists": die}, pre, live
